@@ -13,6 +13,11 @@ CHECKS = {
             'For each catalogue program of the core family and each of its predicates, z3 proves that the SQL text emitted by the current compiler returns the reference multiset on every database with <=K rows per table (integers in [-2^20,2^20]); column names compared concretely. Program shape is enumerated (seeded catalogue), data is universally quantified by the solver.',
             'Trusted: lv/sqlsem.py (SQL subset semantics, validated against real SQLite each run), lv/refsem.py (reading of the docs), z3. Outside: strings beyond constants, / and %, more than K rows, programs outside the family.',
             'DESIGN.md §2.1, §3 C01', 'sqlsmt'),
+    'C02': ('translation_validation',
+            'bounded symbolic evaluation of the emitted SQL (GROUP BY, correlated scalar sub-queries, aggregate functions) in z3 vs a reference denotation; unsat = equal on every database within the bound; sat models replayed on real SQLite',
+            'For each catalogue program of the agg family, z3 proves the emitted SQL returns the reference multiset (distinct keys once, aggregates over all bodies, combines per outer binding, nulls ignored, null on no solution, negation = no solution) on every database with <=K rows per table incl. NULLs in aggregated columns, empty groups and ties.',
+            'Trusted: lv/sqlsem.py, lv/refsem.py, z3. Count of nothing = 0; ArgMin/ArgMax under no-tie assumption; List compared as multiset. Known finding KF-C02-list-of-nothing (List{} of nothing is [] on SQLite) is reported as KNOWN-FINDING and the predicate re-decided with that deviation accepted.',
+            'DESIGN.md §2.1, §3 C02', 'sqlsmt'),
 }
 
 NOT_APPLICABLE = {
